@@ -78,14 +78,14 @@ def make_cfg(cid, T, assets, dt=None, DEN=1, **extra):
         if k == 'orderbook':
             dens.append(a['fden'])
             vs.append(a['fden'])
-    cfg = dict(id=cid, T=T, dt=dt, tp=tp, D=lcm(*dens), VS=lcm(*vs), DEN=DEN, nodes=nodes, assets=list(assets))
+    cfg = dict(id=cid, T=T, dt=dt, tp=tp, D=lcm(*dens), VS=lcm(*vs), DEN=DEN, nodes=nodes, assets=list(assets), split=set(), refines=False)
     cfg.update(extra)
     return cfg
 
 
 def tla_cfg(cfg):
     """the part of a cfg the specification sees (realisation hints such as raw prices / freq strings are dropped)"""
-    keep_cfg = ('id', 'T', 'dt', 'tp', 'D', 'VS', 'DEN', 'nodes', 'assets')
+    keep_cfg = ('id', 'T', 'dt', 'tp', 'D', 'VS', 'DEN', 'nodes', 'assets', 'split', 'refines')
     drop_asset = ('rawprice', 'rawcostts', 'freq', 'periodicity', 'periodicity_duration', 'block_size', 'wacc', 'force_contract')
     out = {k: cfg[k] for k in keep_cfg}
     out['assets'] = [{k: v for k, v in a.items() if k not in drop_asset} for a in cfg['assets']]
